@@ -7,6 +7,8 @@ E4  conditionally executed children are lowered on private copies of the environ
 E5  Env stores values; nothing outside env.rs reaches into it mutably
 E6  for-each bodies are lowered on the one shared environment, in order
 E7  call arguments are lowered before any parameter of the callee is bound (by-value, caller's scope)
+E9  in every arm of the expression / statement lowering, the environment effects of every child that is lowered reach the
+    environment at the arm's exit (no child runs on a copy that is thrown away)
 E8  mux_envs re-creates every scope and re-binds every binding as a fresh vector of push_mux(condition, a[i], b[i]);
     no scope or binding can be skipped and the result's storage is never written directly
 """
@@ -107,6 +109,47 @@ def rule_e4(ctx):
                     any(mir.callee(t) == MUX_ENVS for _, t in ctx.body(fn["id"]).calls())})
     if extra and not res.findings:
         raise AnchorMissing("E4: %s merges environments but is not one of the constructs this rule analyses" % extra)
+    return res
+
+
+def rule_e9(ctx):
+    """Every child is lowered on an environment whose changes survive: the caller's own, or a copy that is merged back."""
+    res = RuleResult("E9", "no construct lowers a child on a copy of the environment that is then thrown away")
+    spec = EnvSpec(ctx)
+    total = 0
+    for (fspec, adt) in ((C02.EXPR_COMPILE, "ast::ExprEnum"), (C02.STMT_COMPILE, "ast::StmtEnum")):
+        f = C02.fn_of(ctx, fspec)
+        body = ctx.body(f["id"])
+        k = env_arg(body)
+        for v in ctx.adt(adt)["variants"]:
+            succ = body.pruned_succ({C02.INNER: v["name"]})
+            region = body.reachable([0], succ=succ)
+            if len(region) == len(body.reachable([0])):
+                continue
+            it = protocol.Interp(body, spec, succ=succ, observe=("A", k))
+            try:
+                r = it.run()
+            except Exception as e:  # budget exceeded: this arm is not decided
+                res.note("%s::%s: not analysed (%s)" % (adt, v["name"], e))
+                continue
+            if not r.mutators:
+                continue
+            total += 1
+            bad = False
+            for (val, x) in r.finals:
+                if val[0] == "U":
+                    continue
+                rs = protocol.reach(val, r)
+                for s_ in sorted(s_ for s_ in x if not isinstance(s_, tuple) and s_ in r.mutators and s_ not in rs):
+                    t = r.mutators[s_]
+                    res.bad(Finding("E9", f["id"], "%s: %s lowered on an environment that is thrown away" % (v["name"], mir.last_seg(mir.callee(t) or "?")),
+                                    "assignments made while lowering this child are not contained in the environment at the end of the %s arm: the child runs on a copy that is neither merged "
+                                    "back (mux_envs) nor installed" % v["name"], t["sp"]))
+                    bad = True
+            if not bad:
+                res.ok({"construct": "%s::%s" % (mir.last_seg(adt), v["name"]), "children_lowered": len(r.mutators), "verdict": "every child's environment effects reach the exit"})
+    if total < 10 and not res.findings:
+        raise AnchorMissing("E9: analysed only %d arms that lower children" % total)
     return res
 
 
@@ -536,4 +579,4 @@ def rule_e7(ctx):
 
 
 def run(ctx):
-    return ctx.run_rules([rule_e1, rule_e2, rule_e3, rule_e4, rule_e5, rule_e6, rule_e7, rule_e8])
+    return ctx.run_rules([rule_e1, rule_e2, rule_e3, rule_e4, rule_e5, rule_e6, rule_e7, rule_e8, rule_e9])
